@@ -83,7 +83,15 @@ def frames(ntypes, maxn, ordered):
 
 
 def grid_spec(L, dim, periodic=True, origin=0.0):
-    return {"kind": "cart", "shape": [int(L)] * dim, "dx": [1.0] * dim, "origin": [float(origin)] * dim, "periodic": [periodic] * dim}
+    mask = [periodic] * dim if isinstance(periodic, bool) else list(periodic)
+    return {"kind": "cart", "shape": [int(L)] * dim, "dx": [1.0] * dim, "origin": [float(origin)] * dim, "periodic": mask}
+
+
+def cfg_mask(cfg, dim):
+    """periodicity of the supplied grid: all axes, or (grid='mixed') only the even ones - in 1-D that is a non-periodic grid"""
+    if cfg["grid"] == "mixed":
+        return [a % 2 == 1 for a in range(dim)]
+    return [True] * dim
 
 
 def cfg_origin(cfg):
@@ -101,6 +109,10 @@ def configs():
     out.append({"method": "overlap", "grid": "shifted"})
     out.append({"method": "distance", "grid": "shifted", "max_dist": "inf"})
     out.append({"method": "distance", "grid": "shifted", "max_dist": 1.25})
+    # a grid with periodic and non-periodic axes (a plain non-periodic grid in one dimension)
+    out.append({"method": "overlap", "grid": "mixed"})
+    out.append({"method": "distance", "grid": "mixed", "max_dist": "inf"})
+    out.append({"method": "distance", "grid": "mixed", "max_dist": 1.25})
     return out
 
 
@@ -121,18 +133,21 @@ def make_blocks(tier, seed):
     for cfg in configs():
         out.append({"alph": "1d", "phase": ph, "cfg": cfg, "maxn": 2, "ordered": False, "depth": 0, "first": None, "times": "unit"})
         trivial = cfg.get("max_dist") == -1.0
+        # quick tier: the grid variants that only change origin / per-axis periodicity get the two-frame and motion blocks only
+        light = cfg["grid"] in ("shifted", "mixed") and tier != "thorough"
         # base: 1-D, unordered frames of <= 2 droplets, histories of length 1..3, unit times
-        if not trivial or tier == "thorough":
+        if (not trivial or tier == "thorough") and not light:
             add("1d-small", 2, False, 3, "unit", split=True)
         # ordered frames, two frames, several time variants
         for tv in (("half-offset", "neg-int") if tier != "thorough" else tuple(TIMES)):
             add("1d", 2, True, 2, tv, split=tier == "thorough")
         # single-droplet frames, longer histories
-        add("1d", 1, True, 4, "unit", split=True)
-        for tv in ("half-offset", "nonuniform", "neg-int"):
-            add("1d", 1, True, 3, tv)
-        # three droplets per frame (competition between candidates), two frames
-        add("1d-small", 3, False, 2, "nonuniform", split=True, min_len=2)
+        if not light:
+            add("1d", 1, True, 4, "unit", split=True)
+            for tv in ("half-offset", "nonuniform", "neg-int"):
+                add("1d", 1, True, 3, tv)
+            # three droplets per frame (competition between candidates), two frames
+            add("1d-small", 3, False, 2, "nonuniform", split=True, min_len=2)
         # motion: frame 1 = up to 3 lattice droplets, frame 2 = up to 2 (thorough: 3) droplets on the lattice displaced by 0/0.3/-0.9/1.4
         for i0 in range(56):
             out.append({"alph": "1d-motion", "phase": ph, "cfg": cfg, "maxn": 3 if tier == "thorough" else 2, "ordered": False, "depth": 2, "times": "half-offset", "motion": True, "first": i0})
@@ -205,7 +220,7 @@ def run_tracking(block, etc, L, dim):
     from droplets import DropletTrackList
 
     cfg = block["cfg"]
-    grid = geom.make_grid(grid_spec(L, dim, origin=cfg_origin(cfg))) if cfg["grid"] else None
+    grid = geom.make_grid(grid_spec(L, dim, periodic=cfg_mask(cfg, dim), origin=cfg_origin(cfg))) if cfg["grid"] else None
     kw = {}
     if cfg["method"] == "distance" and cfg["max_dist"] != "inf":
         kw["max_dist"] = cfg["max_dist"]
@@ -215,7 +230,7 @@ def run_tracking(block, etc, L, dim):
 
 
 def dist(cfg, L, dim, p, q):
-    return geom.point_dist(grid_spec(L, dim) if cfg["grid"] else None, p, q)
+    return geom.point_dist(grid_spec(L, dim, periodic=cfg_mask(cfg, dim)) if cfg["grid"] else None, p, q)
 
 
 def identify(tracks, hist, T, times):
